@@ -20,6 +20,7 @@ class B { init() { self.g = 'Bg'; self.h = 'Bh'; self.f = 'Bf'; } m() { return '
 class C : A { init() { self.k = 'Ck'; super.init(); } m() { return 'Cm:' + super.m(); } m1(x) { return 'Cm1:' + super.m1(x); } }
 class C2 : C { init() { self.j = 'C2j'; super.init(); } }
 class D { init() { self.f = 'Df'; self.m = || 'Dfield'; self.m1 = |x| 'Dfield1'; } }
+class E { init(t) { self.f = 'Ef' + t; self.m = || 'Efield' + t; self.m1 = |x| 'Efield1' + t; self.sm = || 'Esm' + t; } }
 fn mk1() { class T { init() { self.f = 'T1f'; self.g = 'T1g'; } m() { return 'T1m'; } m1(x) { return 'T1m1'; } } return T(); }
 fn mk2() { class T { init() { self.g = 'T2g'; self.f = 'T2f'; } m() { return 'T2m'; } m1(x) { return 'T2m1'; } } return T(); }
 fn mixin(Base) { class T : Base { m() { return 'T>' + super.m(); } m1(x) { return 'T1>' + super.m1(x); } } return T; }
@@ -57,14 +58,15 @@ fn step_get(o) {
 # which sites a receiver visits: all of them, or only the invoke sites / only the property sites / only the get-then-call site
 # (an entry of one cache kind must not depend on an entry of another kind keeping the class alive)
 SITES = ["all", "inv", "prop", "get"]
-RECV = {"A": "step(A());", "B": "step(B());", "C": "step(C());", "C2": "step(C2());", "D": "step(D());",
+RECV = {"E1": "step(E('1'));", "E2": "step(E('2'));",   # one class, the invoked names are fields holding a different callable per instance
+        "A": "step(A());", "B": "step(B());", "C": "step(C());", "C2": "step(C2());", "D": "step(D());",
         "N": "step(5);", "S": "step('s');", "L": "step([1]);", "T1": "step(mk1());", "T2": "step(mk2());",
         "GC": "print('@@gc full'); let pad%d = [0];",
         # classes made by a factory with a run-time super class: one super-invoke site sees several super classes, twice for one receiver when stacked
         # class objects as receivers (the receiver's class is the metaclass): static method invoke sites
         "cA": "step(A);", "cB": "step(B);",
         "FA": "step(mixin(A)());", "FB": "step(mixin(B)());", "FFA": "step(mixin(mixin(A))());", "FFB": "step(mixin(mixin(B))());"}
-ALPHA = ["A", "B", "C", "C2", "D", "N", "T1", "T2", "GC", "FA", "FFA", "cA", "cB", "FFB", "FB", "S", "L"]
+ALPHA = ["A", "B", "C", "C2", "D", "E1", "E2", "N", "T1", "GC", "FA", "T2", "FFA", "cA", "cB", "FFB", "FB", "S", "L"]
 
 
 # ---- two modules: every module has its own cache and numbers its sites from 0; a super call from one module into a method written in the other,
@@ -139,7 +141,7 @@ def prog(hist, sites="all"):
 class C13(Check):
     id = "C13"
     level = "exploration"
-    rule = ("(hist) all receiver histories of length 1..L (L=4 quick, 6 thorough) over a 17 symbol alphabet (13 for length 4, 11 beyond), visiting all sites, and for length <= 3 (4 thorough) also only the invoke / only the property / only the get-then-call sites, each run with caches "
+    rule = ("(hist) all receiver histories of length 1..L (L=4 quick, 6 thorough) over a 19 symbol alphabet (15 for length 4, 11 beyond; incl. two instances of one class whose invoked names are fields holding a different callable each), visiting all sites, and for length <= 3 (4 thorough) also only the invoke / only the property / only the get-then-call sites, each run with caches "
             "on and with hook H4 forcing every lookup to miss; oracle: equal output, and every step equals the output of that "
             "receiver at a fresh site; (xmod) two modules with caches of their own: all call histories <= 3 (4 thorough) over 7 call sites in both modules x 4 receivers (base class, subclasses declared in the other module, super calls across the module boundary); (repl) prompt sessions <= 6 (7 thorough) lines over 10 entries (class, two groups of functions with sites, a module import in between, uses, a failing and a raising line), caches on/off; (corpus) every corpus program on/off. non-trivial = history with >= 2 different receiver "
             "classes at the site (or a corpus program containing a property/invoke site)")
@@ -153,7 +155,7 @@ class C13(Check):
     def gen(self, tier):
         L = 6 if tier == "thorough" else 4
         for n in range(1, L + 1):
-            alpha = ALPHA if n <= 3 else (ALPHA[:13] if n == 4 else ALPHA[:11])
+            alpha = ALPHA if n <= 3 else (ALPHA[:15] if n == 4 else ALPHA[:11])
             for h in itertools.product(alpha, repeat=n):
                 yield ("hist", h)
                 if n <= (4 if tier == "thorough" else 3):
